@@ -255,9 +255,12 @@ func deleteFilteredData[T any](remoteWrite bool, existingData []T, filterData *F
 
 	var result []T
 	for i := range existingData {
-		writeAllowed := writeAllowed(existingData[i])
-		if !writeAllowed && remoteWrite {
+		// a remote write may not touch an item that is not writable; items
+		// the filter does not address are kept and do not matter
+		addressed := filterData.Selector == nil || filterData.SelectorMatch(util.Ptr(existingData[i]))
+		if addressed && remoteWrite && !writeAllowed(existingData[i]) {
 			success = false
+			result = append(result, existingData[i])
 			continue
 		}
 
